@@ -12,6 +12,7 @@
 //       adjhtml  LocalNetworkAdjustmentResults::read_html (mode ignored)
 // mode: one              the whole document in one xml_parse(..., isFinal=1) call
 //       lines            line by line as gama-local's main() does
+//       g3lines          as gama-g3's get_xml_input() and read_xml() do: line, "\n", ..., and a final empty chunk
 //       b1               one byte per call
 //       at:o1,o2,...     chunks split at the given byte offsets (last chunk is final)
 //       every            one-shot outcome + every two-chunk split + b1 + lines; prints only differences
@@ -151,6 +152,17 @@ std::vector<size_t> chunk_ends(const std::string& doc, const std::string& mode)
 {
   std::vector<size_t> e;
   const size_t n = doc.size();
+  if (mode == "g3lines") {
+    // chunks: [line][\n][line][\n]...; the caller adds the final empty chunk (repeated end offset)
+    for (size_t i = 0; i < n; i++)
+      if (doc[i] == '\n') {
+        if (e.empty() || e.back() != i) e.push_back(i);
+        e.push_back(i + 1);
+      }
+    if (e.empty() || e.back() != n) e.push_back(n);
+    e.push_back(n);
+    return e;
+  }
   if (mode == "lines") {
     for (size_t i = 0; i < n; i++)
       if (doc[i] == '\n' && i + 1 < n) e.push_back(i + 1);
